@@ -20,7 +20,7 @@ ANCHORS = ["decaylanguage.decay.decay:DecayChain.to_string", "decaylanguage.deca
            "decaylanguage.utils.utilities:DescriptorFormat.format_descriptor"]
 WORKERS = {"quick": 4, "thorough": 16}
 WTESTS = {"groups": ['to_string'], "tests": ['tests/decay', 'tests/utils']}
-REQUIRED = {"depth>=3": 50, "name-with-paren": 50, "name-with-quote-or-sign": 50, "repeated-subdecay": 50, "orders-compared": 500, "queried-before-to_string": 50, "rendered-before-inside-after-block": 50,
+REQUIRED = {"depth>=3": 50, "name-with-paren": 50, "name-with-quote-or-sign": 50, "repeated-subdecay": 50, "orders-compared": 500, "queried-before-to_string": 50, "rendered-before-inside-after-block": 50, "context-object-re-entered-inside-its-block": 20,
             **{f"pattern-pair-{i}": 20 for i in range(8)}, "C13.to_string.reads_back": 500}
 EXHAUSTIVE_NOTE = "tree shapes <= 5 (quick) / 6 (thorough) decaying particles enumerated with multiplicities 1..2; all daughter orders for small chains"
 ASSUMPTIONS = ["names contain no blanks and have balanced parentheses (all real particle names do)", "brackets of the pattern family do not occur in names"]
@@ -101,8 +101,18 @@ def check_case(ctx, case, workload):
             if pi == 0:
                 return dc.to_string()
             before = dc.to_string() if first else None
-            with DescriptorFormat(p1, p2):
-                inside = dc.to_string()
+            fmt = DescriptorFormat(p1, p2)
+            with fmt:
+                if first and rng.random() < 0.5:
+                    # the same context object used again inside its own block (e.g. by a helper): afterwards its patterns are still in force
+                    ctx.hit("context-object-re-entered-inside-its-block")
+                    with fmt:
+                        nested = dc.to_string()
+                    inside = dc.to_string()
+                    if nested != inside:
+                        ctx.violate("descriptor:differs-after-nested-use-of-the-same-format", f"inside the nested block {nested!r}, after it {inside!r}", wit)
+                else:
+                    inside = dc.to_string()
             if first:
                 # the same object rendered again after the block: the default patterns are back at every level
                 after = dc.to_string()
